@@ -263,7 +263,20 @@ def fam_typeerrs():
     uf = module("th", imports=[("tl", "lib", None)], body="  leaf amount { type lib:dec { fraction-digits 3; } }\n")
     ui = module("ti", imports=[("tl", "lib", D1)], tds=["pinned"], body=
                 "  typedef pinned { type lib:num { range 1..70000; } }\n  leaf p { type pinned; }\n")
-    return [l0, l1, l2, xn, ut, ul, ue, uf, ui]
+    # Typedef.resolve's own error returns: a typedef whose type carries a base that cannot be resolved (yet), on
+    # identityref and on other types, prefixed and unprefixed; the identities arrive with a later module / revision
+    i1 = module("ids", rev=D1, body="  identity first;\n")
+    i2 = module("ids", rev=D2, body="  identity first;\n  identity later-id { base first; }\n")
+    tj = module("tj", imports=[("ids", "i", None)], tds=["hb2", "hb4", "hb5"], body=
+                "  typedef hb2 { type string { base i:later-id; } }\n  leaf j2 { type hb2; }\n"
+                "  typedef hb4 { type identityref { base i:later-id; } }\n  leaf j4 { type hb4; }\n"
+                "  typedef hb5 { type hb4; }\n  leaf j5 { type hb5; }\n  leaf j6 { type identityref { base i:first; } }\n")
+    tk = module("tk", tds=["hb1", "hb3"], body=
+                "  typedef hb1 { type string { base no-such-identity; } }\n  leaf k1 { type hb1; }\n"
+                "  typedef hb3 { type identityref { base no-such-identity; } }\n  leaf k3 { type hb3; }\n")
+    tm_ = module("tn", tds=["hb6"], body=
+                 "  identity own;\n  typedef hb6 { type uint8 { base own; } }\n  leaf n6 { type hb6; }\n")
+    return [l0, l1, l2, xn, ut, ul, ue, uf, ui, i1, i2, tj, tk, tm_]
 
 
 def fam_namespaces():
@@ -322,34 +335,38 @@ def universe(rnd, which=None):
 
 def gen_ops(rnd, texts, maxlen=10):
     n = rnd.randint(2, maxlen)
-    ops = []
+    ops, loaded = [], []
     ngood = sum(1 for t in texts if t["name"].startswith("g") and t["name"][1].isdigit())
     for _ in range(n - 1):
         x = rnd.random()
         if x < 0.3 and ops:
             ops.append("P")
-        elif x < 0.42 and ops:
+        elif x < 0.34 and loaded:
+            ops.append("G" + hx(rnd.choice(loaded)))             # GetModule of a module that has been offered
+        elif x < 0.44 and ops:
             ops.append("T" if rnd.random() < 0.85 else "C")      # reads between the runs: ToEntry & co., ClearEntryCache
-        elif x < 0.78:
-            ops.append("L%d" % rnd.randrange(ngood))
         else:
-            ops.append("L%d" % rnd.randrange(len(texts)))
-    ops.append("P")
+            i = rnd.randrange(ngood) if x < 0.78 else rnd.randrange(len(texts))
+            ops.append("L%d" % i)
+            loaded += [it["mod"] for it in texts[i]["items"] if it["good"] and it["kind"] == "m"]
+    ops.append("P" if not loaded or rnd.random() < 0.8 else "G" + hx(rnd.choice(loaded)))
     return ops
 
 
 # scripted histories: family -> op lists over the indices of the family's good items
 CORPUS = dict(
-    namespaces=["L0,P,L1,P,P", "L0,L2,P,L1,P", "L1,P,L0,P"],                               # D55 byNS
+    namespaces=["L0,P,L1,P,P", "L0,L2,P,L1,P", "L1,P,L0,P", "L0,G6e31,L2,G6e31"],   # n3 augments n1 after GetModule(n1)                               # D55 byNS
     submodules=["L0,L7,L1,L3,P,L2,L4,P", "L0,L7,L1,L3,P,L2,P,P", "L0,P,L1,P,L3,P,L7,P",     # D57, D62, late submodules
                 "L4,L5,P,L0,L2,P,L1,L3,L7,P", "L6,P,L0,L2,P", "L8,L9,P,L10,P,P",
                 "L8,L9,L11,P,L10,P,P", "L8,L9,L12,P,T,L13,P,P", "L0,L2,L12,P,T,L13,P", "L8,L10,L12,T,P,T,C,T,L13,T,P"],   # kept typedefs, reads
-    typedefs=["L0,L2,L3,P,L1,P", "L4,P,L0,P,L1,P", "L3,P,L2,P,L0,P,P"],                    # D56 re-binding, late targets
+    typedefs=["L0,L2,L3,P,L1,P", "L4,P,L0,P,L1,P", "L3,P,L2,P,L0,P,P",
+              "L0,L2,P,L1,G746d", "L0,L2,L3,G7474,L1,G7474,G746d", "L0,L2,G746d,L8,G746d"],   # GetModule after Parse (tm, tt)                    # D56 re-binding, late targets
     identities=["L2,P,L0,P,L1,P", "L3,L1,P,L0,P,P", "L0,L1,L2,L3,P,P"],                    # D56 memoised errors, D42
     chains=["L0,L1,P,L2,P,L3,P", "L4,L0,P,L1,P", "L2,L0,P,L3,P,L1,P"],                      # failing include, D41
     revisions=["L4,L5,L6,P,L0,P,L1,P,L2,P", "L3,L4,P,L0,P", "L1,L4,P,L3,P,L2,P", "L1,P,L0,P,P"],   # older after newer
     typeerrs=["L6,P,L3,P,P", "L0,L7,P,L1,P,L2,P", "L4,P,L0,P,L3,P,L1,P,L2,P", "L5,L3,L0,P,L1,P,L2,P",   # Type.resolve
-              "L8,L0,P,L1,P,L2,P", "L2,L4,L5,L3,P,L1,P,L0,P"],                                          # error paths
+              "L8,L0,P,L1,P,L2,P", "L2,L4,L5,L3,P,L1,P,L0,P",                                           # error paths
+              "L11,P,P,L9,P,L10,P,P", "L12,P,P,P", "L13,L9,L11,P,L10,P", "L10,L11,P,L12,P,P"],           # Typedef.resolve
 )
 
 
@@ -403,12 +420,17 @@ def parse(line):
     return json.loads(line)
 
 
+def is_run(op):
+    """P = Process, G<namehex> = GetModule(name) (Process + ToEntry): both produce a dump"""
+    return op == "P" or op.startswith("G")
+
+
 def split_history(ops, loads):
-    """per P of the history: indices (into texts) of the loads accepted before it, in load order"""
+    """per run (P or G) of the history: (indices (into texts) of the loads accepted before it, in load order; the op)"""
     out, acc, li = [], [], 0
     for op in ops:
-        if op == "P":
-            out.append(list(acc))
+        if is_run(op):
+            out.append((list(acc), op))
         elif op.startswith("L"):
             if loads[li] == "ok":
                 acc.append(int(op[1:]))
@@ -416,9 +438,11 @@ def split_history(ops, loads):
     return out
 
 
-def batch_for(texts, acc, opts="-"):
+def batch_for(texts, accop, opts="-"):
+    """the fresh set: exactly the accepted texts, then the same run op"""
+    acc, op = accop
     sub = [texts[i] for i in acc]
-    return process_line(sub, ["L%d" % k for k in range(len(sub))] + ["P"], opts)
+    return process_line(sub, ["L%d" % k for k in range(len(sub))] + [op], opts)
 
 
 def first_diff(a, b, path=""):
@@ -446,7 +470,7 @@ class Case:
     def __init__(self, fams, texts, ops, opts="-", hops=None):
         self.fams, self.texts, self.ops, self.opts = fams, texts, ops, opts
         # the history without ClearEntryCache, with namespace lookups (c18hist only)
-        self.hops = hops if hops is not None else [o for o in ops if o != "C"]
+        self.hops = hops if hops is not None else ["P" if o.startswith("G") else o for o in ops if o != "C"]
 
     def replay(self):
         return dict(families=self.fams, ops=self.ops, hops=self.hops, opts=self.opts, texts=self.texts)
@@ -701,6 +725,8 @@ def with_ns_ops(rnd, c):
     for op in c.ops:
         if op == "C":
             continue                      # ClearEntryCache exists in c18proc only
+        if op.startswith("G"):
+            op = "P"                      # GetModule = Process + ToEntry
         out.append(op)
         if rnd.random() < 0.3:
             out.append("N" + hx(rnd.choice(nss)))
